@@ -45,7 +45,7 @@ def run(rep, tier, rng, model_ok):
     threads = (1, 4) if q else (1, 2, 4, 8)
     impl = {th: simcheck.run_impl([simcase.render(c, bugs=bugs, threads=th) for c in cases]) for th in threads}
     st = {"benches": len(cases), "benches_with_scheduling_handlers": sum(1 for c in cases if "conf-sched" in c.get("tags", ())), "calls_checked": 0, "calls_na": 0, "model_bad": 0, "impl_mismatch": 0,
-          "invocations_predicted": 0, "threads": list(threads), "max_invocations_in_one_call": 0}
+          "invocations_predicted": 0, "calls_where_quiescence_theorem_applies": 0, "threads": list(threads), "max_invocations_in_one_call": 0}
     bad_m, bad_i = [], []
     for ci, (c, cl, co) in enumerate(zip(cases, clines, couts)):
         vs = [v.strip() for v in (co or "").split(" | ")]
@@ -56,8 +56,10 @@ def run(rep, tier, rng, model_ok):
                 st["calls_na"] += 1; continue
             if v.startswith("bad:"):
                 bad_m.append((ci, "call %d: %s" % (j, WHY.get(v[4:], v)))); continue
-            pred = sorted(x for x in v[3:].split() if x)
+            proved = v.startswith("ok+:")
+            pred = sorted(x for x in v[(4 if proved else 3):].split() if x)
             st["calls_checked"] += 1
+            st["calls_where_quiescence_theorem_applies"] += 1 if proved else 0
             st["invocations_predicted"] += len(pred)
             st["max_invocations_in_one_call"] = max(st["max_invocations_in_one_call"], len(pred))
             for th in threads:
@@ -73,7 +75,7 @@ def run(rep, tier, rng, model_ok):
     st["model_bad"], st["impl_mismatch"] = len(bad_m), len(bad_i)
     rep.cov["evaluations"] += len(cases) * (1 + len(threads))
     rep.cov["traces_validated_against_impl"] += len(cases) * len(threads)
-    rep.cov["distinct_nontrivial"] += sum(1 for co in couts if co and "ok:H" in co.replace("ok:I", "ok:H"))
+    rep.cov["distinct_nontrivial"] += sum(1 for co in couts if co and "ok:H" in co.replace("ok+:", "ok:").replace("ok:I", "ok:H"))
     rep.cov["disagreements_checked"] += len(bad_m) + len(bad_i)
     rep.cov.setdefault("parts", {})["pool-confluence"] = st
     if bad_i:
